@@ -154,13 +154,38 @@ def tref_pool():
 # declared tables
 
 
-class Decl:
-    """what the user declares: columns (name, unit key, dtype, values), epoch, poly_trend, n_offsets"""
+def canon_meta(x):
+    """canonical, order-defined form of a free-form metadata value (sequences of any flavour are sequences)"""
+    if isinstance(x, dict):
+        return {str(k): canon_meta(v) for k, v in sorted(x.items(), key=lambda kv: str(kv[0]))}
+    if isinstance(x, (list, tuple, np.ndarray)):
+        return [canon_meta(v) for v in list(x)]
+    if isinstance(x, (bool, np.bool_)):
+        return bool(x)
+    if isinstance(x, (int, np.integer)):
+        return int(x)
+    if isinstance(x, (float, np.floating)):
+        return float(x)
+    return str(x)
 
-    def __init__(self, cols, tref, pt, no):
+
+def canon_extra(extra):
+    import json
+    return None if not extra else json.dumps(canon_meta(extra), sort_keys=True)
+
+
+RESERVED_META = ("t_ref", "poly_trend", "n_offsets")
+
+
+class Decl:
+    """what the user declares: columns (name, unit key, dtype, values), epoch, poly_trend, n_offsets, and free-form
+    metadata (`JokerSamples(**kwargs)`; HDF5 histories only)"""
+
+    def __init__(self, cols, tref, pt, no, extra=None):
         self.cols = cols            # list of dict(name, unit, dtype, vals)
         self.tref = tref            # key into tref_pool() or None
         self.pt, self.no = pt, no
+        self.extra = extra or None  # dict of free-form metadata or None
 
     @property
     def n(self):
@@ -170,17 +195,21 @@ class Decl:
         return [(c["name"], c["unit"], c["dtype"]) for c in self.cols]
 
     def tref_model_key(self):
-        return None if self.tref is None else self.tref.split("#")[0]
+        """the metadata as ONE key for the model (Store compares metadata for equality only): the epoch, and the
+        canonical form of the free-form metadata when there is any"""
+        k = None if self.tref is None else self.tref.split("#")[0]
+        ce = canon_extra(self.extra)
+        return k if ce is None else f"{k}||{ce}"
 
     def metadata(self):
         return (self.tref_model_key(), self.pt, self.no)
 
     def schema(self):
-        return dict(cols=self.header(), tref=self.tref, pt=self.pt, no=self.no)
+        return dict(cols=self.header(), tref=self.tref, pt=self.pt, no=self.no, extra=self.extra)
 
     def describe(self):
         return dict(rows=self.n, cols=[list(h) for h in self.header()], t_ref=self.tref, poly_trend=self.pt,
-                    n_offsets=self.no)
+                    n_offsets=self.no, **({"extra_metadata": canon_meta(self.extra)} if self.extra else {}))
 
     def to_model(self):
         from core import bits
@@ -191,13 +220,13 @@ class Decl:
     def concat(self, other):
         """the table a file holds after `other` was appended to `self` (same header and metadata)"""
         return Decl([dict(c, vals=np.concatenate([np.asarray(c["vals"]), np.asarray(o["vals"])]))
-                     for c, o in zip(self.cols, other.cols)], self.tref, self.pt, self.no)
+                     for c, o in zip(self.cols, other.cols)], self.tref, self.pt, self.no, self.extra)
 
     def build(self):
         """the real object, through the public API"""
         from thejoker.samples import JokerSamples
         t = None if self.tref is None else tref_pool()[self.tref]
-        s = JokerSamples(t_ref=t, poly_trend=self.pt, n_offsets=self.no)
+        s = JokerSamples(t_ref=t, poly_trend=self.pt, n_offsets=self.no, **(self.extra or {}))
         for c in self.cols:
             s[c["name"]] = np.array(c["vals"], dtype=c["dtype"]) * U(c["unit"])
         return s
@@ -224,7 +253,37 @@ def gen_values(rng, n, name, dtype):
     return v
 
 
-def gen_schema(rng):
+def gen_meta_value(rng, kind=None):
+    kind = kind or str(rng.choice(["list", "tuple", "ndarray", "dict", "int", "float", "str"]))
+    k = int(rng.integers(1, 4))
+    if kind == "list":
+        return [int(v) for v in rng.integers(0, 9, size=k)]
+    if kind == "tuple":
+        return tuple(int(v) for v in rng.integers(0, 9, size=k))
+    if kind == "ndarray":
+        return np.asarray(rng.integers(0, 9, size=k), dtype="f8")
+    if kind == "dict":
+        return {f"k{i}": int(rng.integers(0, 9)) for i in range(k)}
+    if kind == "int":
+        return int(rng.integers(0, 9))
+    if kind == "float":
+        return float(rng.integers(0, 9)) + 0.5
+    return "s" + str(int(rng.integers(0, 9)))
+
+
+def gen_extra(rng):
+    names = ["survey_ids", "note", "run", "weights"]
+    return {str(n_): gen_meta_value(rng) for n_ in rng.permutation(names)[: int(rng.integers(1, 3))]}
+
+
+def gen_schema(rng, with_extra=False):
+    extra = gen_extra(rng) if (with_extra and rng.random() < 0.35) else None
+    sc = _gen_schema(rng)
+    sc["extra"] = extra
+    return sc
+
+
+def _gen_schema(rng):
     pt = int(rng.choice([1, 1, 1, 2, 3]))
     no = int(rng.choice([0, 0, 0, 1, 2]))
     names = valid_names(pt, no)
@@ -266,18 +325,45 @@ def gen_rows(rng, big=False):
 
 def gen_table(rng, schema, n):
     cols = [dict(name=nm, unit=un, dtype=dt, vals=gen_values(rng, n, nm, dt)) for (nm, un, dt) in schema["cols"]]
-    return Decl(cols, schema["tref"], schema["pt"], schema["no"])
+    return Decl(cols, schema["tref"], schema["pt"], schema["no"], schema.get("extra"))
 
 
 VARIANTS = ["extra", "missing", "order", "rename", "unit", "dtype", "tref", "pt", "no"]
 
 
-def mutate_schema(rng, schema):
+def mutate_extra(rng, extra):
+    """free-form metadata that differs from `extra` in exactly one respect: (detail, new extra)"""
+    extra = dict(extra or {})
+    ways = ["only-in-new"] + (["only-in-file", "value"] if extra else [])
+    way = str(rng.choice(ways))
+    if way == "only-in-new":
+        extra["added_" + str(int(rng.integers(0, 9)))] = gen_meta_value(rng)
+        return way, extra
+    key = str(rng.choice(sorted(extra)))
+    if way == "only-in-file":
+        del extra[key]
+        return way, (extra or None)
+    old = extra[key]
+    kind = ("list" if isinstance(old, list) else "tuple" if isinstance(old, tuple) else "ndarray" if isinstance(old, np.ndarray)
+            else "dict" if isinstance(old, dict) else "int" if isinstance(old, int) else "float" if isinstance(old, float) else "str")
+    for _ in range(50):
+        new = gen_meta_value(rng, kind)
+        if canon_meta(new) != canon_meta(old):
+            extra[key] = new
+            return f"value:{kind}", extra
+    return None
+
+
+def mutate_schema(rng, schema, with_meta=False):
     """a schema that differs from `schema` in exactly one respect; returns (variant, detail, schema) or None"""
     cols = list(schema["cols"])
     used = {c[0] for c in cols}
     pt, no = schema["pt"], schema["no"]
     order = [str(v) for v in rng.permutation(VARIANTS)]
+    if (schema.get("extra") and rng.random() < 0.6) or (with_meta and rng.random() < 0.12):
+        mut = mutate_extra(rng, schema.get("extra"))
+        if mut is not None:
+            return "meta", mut[0], dict(schema, cols=list(cols), extra=mut[1])
     if any(c_[2] == "float32" for c_ in cols) and rng.random() < 0.5:
         order = ["dtype"] + order          # files with narrow columns: a widening append is the interesting mismatch
     for variant in order:
@@ -519,6 +605,10 @@ def real_read(path, fmt, want):
         pt, no = int(r.poly_trend), int(r.n_offsets)
     except Exception:
         pt, no = repr(r.poly_trend), repr(r.n_offsets)
+    if fmt == "hdf5":
+        ce = canon_extra({k_: v_ for k_, v_ in r.tbl.meta.items() if k_ not in RESERVED_META and not str(k_).startswith("__")})
+        if ce is not None:
+            key = f"{key}||{ce}"
     return dict(cols=cols, tref=key, pt=pt, no=no)
 
 
@@ -1129,7 +1219,7 @@ def summarise(c):
 
 def hist_case(ctx, g, rng, h, long=False):
     """mixed history on one HDF5 file (everything is a function of g alone, never of the tier)"""
-    schema = gen_schema(rng)
+    schema = gen_schema(rng, with_extra=True)
     n_ops = int(rng.integers(8, 17)) if long else int(rng.integers(4, 11))
     for _ in range(n_ops):
         if h.dead:
@@ -1161,18 +1251,18 @@ def hist_case(ctx, g, rng, h, long=False):
                     ctx.count("append:same-epoch-other-format")
             h.write(gen_table(rng, sc, gen_rows(rng)), False, True)
         elif r < 0.47:    # append of a table that differs in exactly one respect
-            mut = mutate_schema(rng, cur)
+            mut = mutate_schema(rng, cur, with_meta=True)
             if mut is None:
                 continue
             variant, detail, sc = mut
             h.write(gen_table(rng, sc, gen_rows(rng)), False, True, variant=variant, detail=detail)
         elif r < 0.52:    # plain write on an existing file: refused
-            h.write(gen_table(rng, cur if rng.random() < 0.5 else gen_schema(rng), gen_rows(rng)), False, False)
+            h.write(gen_table(rng, cur if rng.random() < 0.5 else gen_schema(rng, True), gen_rows(rng)), False, False)
         elif r < 0.60:    # overwrite
-            schema = cur if rng.random() < 0.4 else gen_schema(rng)
+            schema = cur if rng.random() < 0.4 else gen_schema(rng, True)
             h.write(gen_table(rng, schema, gen_rows(rng)), True, False)
         elif r < 0.65:    # both flags: "only the dataset will be replaced"
-            schema = cur if rng.random() < 0.4 else gen_schema(rng)
+            schema = cur if rng.random() < 0.4 else gen_schema(rng, True)
             h.write(gen_table(rng, schema, gen_rows(rng)), True, True)
         elif r < 0.72:
             h.verify()
@@ -1359,6 +1449,10 @@ def post(ctx):
     ctx.require("refused: incompatible append", c["refused:incompatible"], 25 * t)
     for v in VARIANTS:
         ctx.require(f"append differing in {v}", c[f"append-variant:{v}"], 3 * t)
+    ctx.require("append differing in free-form metadata", c["append-variant:meta"], 3 * t)
+    ctx.require("append differing in a non-scalar metadata value", sum(v_ for k_, v_ in c.items() if k_.startswith("append-variant:meta:value:")
+                                                                       and k_.split(":")[-1] in ("list", "tuple", "ndarray", "dict")), 1 * t)
+    ctx.require("append with a metadata key only one side has", c["append-variant:meta:only-in-new"] + c["append-variant:meta:only-in-file"], 1 * t)
     ctx.require("append of a float64 column onto a float32 column of the file", c["append-variant:dtype:float32->"], 2 * t)
     ctx.require("append of a float32 column onto a float64 column of the file", c["append-variant:dtype:float64->"], 2 * t)
     ctx.require("append with an extra last column", c["append-variant:extra:end"], 2 * t)
